@@ -164,22 +164,44 @@ theorem specW_push_old (cfg : Cfg S D) (tree : Array (Node S)) (nd : Node S) (i 
   · rw [Function.iterate_succ_apply']
   · rfl
 
+theorem mergeF_perm (le : Nat → Nat → Bool) : ∀ (f : Nat) (xs ys : List Nat), (mergeF le f xs ys).Perm (xs ++ ys)
+  | 0, xs, ys => by simp [mergeF]
+  | f + 1, [], ys => by simp [mergeF]
+  | f + 1, x :: xs, [] => by simp [mergeF]
+  | f + 1, x :: xs, y :: ys => by
+    unfold mergeF
+    split
+    · exact (mergeF_perm le f xs (y :: ys)).cons x
+    · have := (mergeF_perm le f (x :: xs) ys).cons y
+      exact this.trans (List.perm_middle.symm)
+
+theorem msortF_perm (le : Nat → Nat → Bool) : ∀ (f : Nat) (l : List Nat), (msortF le f l).Perm l
+  | 0, l => by simp [msortF]
+  | f + 1, l => by
+    unfold msortF
+    split
+    · exact List.Perm.refl _
+    · refine (mergeF_perm le _ _ _).trans ?_
+      have h1 := msortF_perm le f (l.take (l.length / 2))
+      have h2 := msortF_perm le f (l.drop (l.length / 2))
+      exact (h1.append h2).trans (by rw [List.take_append_drop])
+
 theorem specW_push_new (cfg : Cfg S D) (tree : Array (Node S)) (nd : Node S) :
     specW cfg (tree.push nd) tree.size = cfg.wNew (nearestR cfg tree nd.state).length := by
   unfold specW
   rw [later_push_new, earlier_push_new, Function.iterate_zero, id]
   congr 1
   unfold nearestR
-  exact (List.mergeSort_perm _ _).length_eq.symm
+  exact (msortF_perm _ _ _).length_eq.symm
 
 theorem mem_nearestR (cfg : Cfg S D) (tree : Array (Node S)) (q : S) (i : Nat) :
     i ∈ nearestR cfg tree q ↔ i < tree.size ∧ nbrAt cfg tree q i = true := by
   unfold nearestR
-  rw [(List.mergeSort_perm _ _).mem_iff, List.mem_filter, List.mem_range]
+  rw [(msortF_perm _ _ _).mem_iff, List.mem_filter, List.mem_range]
 
 theorem nodup_nearestR (cfg : Cfg S D) (tree : Array (Node S)) (q : S) : (nearestR cfg tree q).Nodup := by
   unfold nearestR
-  rw [(List.mergeSort_perm _ _).nodup_iff]
+  rw [(msortF_perm _ _ _).nodup_iff]
   exact List.Nodup.sublist List.filter_sublist List.nodup_range
 
 /-! ### the PDF invariant of an EST state -/
